@@ -121,8 +121,38 @@ func runC07(r *Report) {
 				if !ok || !((bo.Op == token.EQL && ft.Pol) || (bo.Op == token.NEQ && !ft.Pol)) {
 					continue
 				}
-				if fromMap(bo.X, "clientIDMap", 0) || fromMap(bo.Y, "clientIDMap", 0) {
-					guarded = true
+				// one side is the entry stored in the index; the other side must denote the connection this
+				// function removes: the key of its connMap delete, the connection looked up in connMap, or the
+				// connection handed in (comparing with anything else, e.g. the NEW connection's id, guards nothing)
+				for _, pair := range [][2]ssa.Value{{bo.X, bo.Y}, {bo.Y, bo.X}} {
+					if !fromMap(pair[0], "clientIDMap", 0) {
+						continue
+					}
+					other := pair[1]
+					okOther := fromMap(other, "connMap", 0)
+					for _, cd := range mapDeletes(f, "connMap") {
+						if c, ok := cd.(*ssa.Call); ok && len(c.Call.Args) == 2 {
+							k := c.Call.Args[1]
+							if stripValue(k) == stripValue(other) || sameExpr(k, other) {
+								okOther = true
+							}
+							// comparing connection pointers: the delete key is <other>.ConnID
+							if _, fld, base, isF := FieldOf(k); isF && fld == "ConnID" && (stripValue(base) == stripValue(other) || sameExpr(base, other)) {
+								okOther = true
+							}
+						}
+					}
+					if p, isP := stripValue(other).(*ssa.Parameter); isP && isCtrlConnType(p.Type()) {
+						okOther = true
+					}
+					if _, fld, base, isF := FieldOf(other); isF && fld == "ConnID" {
+						if p, isP := stripValue(base).(*ssa.Parameter); isP && isCtrlConnType(p.Type()) {
+							okOther = true
+						}
+					}
+					if okOther {
+						guarded = true
+					}
 				}
 			}
 			r.Ob("R-C07-2", d.Pos(), guarded, "delete from the client index must be dominated by an equality test between the entry stored in the index and the connection being removed (otherwise a newer connection of the same client loses its index entry)", r.P.FuncName(f), "guarded-index-delete")
@@ -178,11 +208,61 @@ func runC07(r *Report) {
 		})
 		dels := mapDeletes(ua, "clientIDMap")
 		ok := upd != nil && rng != nil && len(dels) > 0 && !ReachesWithout(ua, upd, func(in ssa.Instruction) bool { return in == rng })
+		// the sweep removes exactly the OTHER keys of this connection: delete under `entry == conn` and
+		// `key != newID`
+		for _, d := range dels {
+			same, other := false, false
+			for _, ft := range Facts(d.Block()) {
+				bo, isB := ft.Cond.(*ssa.BinOp)
+				if !isB {
+					continue
+				}
+				if ((bo.Op == token.EQL && ft.Pol) || (bo.Op == token.NEQ && !ft.Pol)) && (fromMap(bo.X, "clientIDMap", 0) || fromMap(bo.Y, "clientIDMap", 0)) && (fromMap(bo.X, "connMap", 0) || fromMap(bo.Y, "connMap", 0)) {
+					same = true
+				}
+				if ((bo.Op == token.NEQ && ft.Pol) || (bo.Op == token.EQL && !ft.Pol)) && (originSummary(bo.X) == "param:clientID" || originSummary(bo.Y) == "param:clientID") {
+					other = true
+				}
+			}
+			r.Ob("R-C07-4", d.Pos(), same && other, fmt.Sprintf("the sweep deletes a key only if its entry is this connection (%v) and the key is not the id being installed (%v)", same, other), "UpdateAuth", "sweep-condition")
+		}
 		pos := ua.Pos()
 		if upd != nil {
 			pos = upd.Pos()
 		}
 		r.Ob("R-C07-4", pos, ok, "before installing clientIDMap[newID] = conn, UpdateAuth must sweep the index for other keys that still map to this connection (a connection re-authenticated under another id would otherwise stay reachable under the old id, even after it is closed)", "UpdateAuth", "stale-keys-removed")
+	}
+
+	// the transport adapter stops being responsible for closing a connection only when the session took
+	// it over (tunnel mode switch / stream mode): every `shouldCloseConn = false` is under that fact.
+	// Any other reason (a refused or malformed TunnelOpen...) would leave the connection open and counted.
+	nKeep := 0
+	for _, f := range r.P.FuncsIn("internal/protocol/adapter") {
+		Instrs(f, func(in ssa.Instruction) {
+			st, ok := in.(*ssa.Store)
+			if !ok {
+				return
+			}
+			if _, fld, _, isF := FieldOf(st.Addr); !isF || fld != "shouldCloseConn" {
+				return
+			}
+			if v, isC := ConstBool(st.Val); !isC || v {
+				return
+			}
+			nKeep++
+			handed := false
+			for _, ft := range Facts(st.Block()) {
+				if c, isCall := stripValue(ft.Cond).(*ssa.Call); isCall && ft.Pol {
+					if n := CalleeOf(c).Name; n == "isTunnelModeSwitch" || n == "IsStreamMode" || n == "IsPersistent" {
+						handed = true
+					}
+				}
+			}
+			r.Ob("R-C07-5", st.Pos(), handed, "the adapter keeps a connection open after its read loop only under a positive tunnel-mode-switch / stream-mode / persistent-transport test (everything else is closed and unregistered)", r.P.FuncName(f), "handover-only-on-mode-switch")
+		})
+	}
+	if nKeep < 2 {
+		r.Fail("R-C07-5", 0, fmt.Sprintf("only %d hand-over sites (shouldCloseConn = false) found in the adapter (3 confirmed by hand)", nKeep), "internal/protocol/adapter", "handover:floor")
 	}
 
 	// ---- R-C07-5 teardown reaches everything ----------------------------------------
